@@ -23,7 +23,8 @@ from ..catalog.nn_ops import REP_1D, out_len, _labels, _const
 class PairCase:
     expect = "pair"
 
-    def __init__(self, name, key, leaves, lhs, rhs, eps="symbolic", functions=(), max_paths=1500, timeout_ms=20000):
+    def __init__(self, name, key, leaves, lhs, rhs, eps="symbolic", functions=(), max_paths=1500, timeout_ms=20000, stress_axis=None):
+        self.stress_axis = stress_axis      # softmax-type identities: axis along which the rows are normalised (float stress points vary the scale across rows)
         self.name = name
         self.key = {"identity": name, **key}
         self.leaves = leaves
@@ -161,6 +162,55 @@ class PairCase:
         return rep
 
 
+def float_stress(run, cases, seed):
+    """Bounded, native: the real numbers of the proof are floats at run time. For the softmax-type identities both sides are evaluated in
+    float32 and float64 on operands whose rows sit at very different scales (each row well-conditioned on its own: spread <= 4 within a
+    row, rows offset by +-M): wherever one side is finite in values and gradients the other must be finite and agree to the dtype's precision."""
+    import random
+    from synapgrad.tensor import Tensor
+    for c in cases:
+        if c.stress_axis is None:
+            continue
+        l0 = c.leaves[0]
+        if len(l0.shape) < 2:
+            continue
+        ax = c.stress_axis % len(l0.shape)
+        for dt, M, rtol in ((np.float32, 70.0, 2e-4), (np.float64, 500.0, 1e-9)):
+            for trial in range(3):
+                rng = random.Random("%s|%s|%d|%d" % (c.name, c.key, seed, trial))
+                x = np.zeros(l0.shape)
+                for idx in np.ndindex(*l0.shape):
+                    row = tuple(i for k, i in enumerate(idx) if k != ax)
+                    sign = (-1) ** (sum(row) + trial) if trial < 2 else (0 if sum(row) % 2 else 1)
+                    x[idx] = sign * M + rng.uniform(-2, 2)
+                outs = []
+                gv = None
+                key = {**c.key, "dtype": np.dtype(dt).name, "row_offsets": "+-%g" % M, "trial": trial}
+                try:
+                    with shim.native(), np.errstate(all="ignore"):
+                        for side in (c.lhs, c.rhs):
+                            T = {l0.name: Tensor(x.astype(dt), requires_grad=True)}
+                            o = side(T)
+                            if gv is None:
+                                gv = np.array([rng.uniform(0.5, 2) for _ in range(max(1, o.data.size))]).reshape(o.data.shape).astype(dt)
+                            o.backward(Tensor(gv.copy()))
+                            outs.append((np.array(o.data, dtype=np.float64), np.array(T[l0.name]._grad, dtype=np.float64)))
+                except Exception as e:
+                    run.violation(c.name + ".float_stress_completes", "%s: %s" % (type(e).__name__, e), key=key, replay={"x": x.tolist(), **key}, reproduced=True)
+                    continue
+                run.rt(("float-stress", c.name, repr(c.key), np.dtype(dt).name, trial))
+                fin = [bool(np.isfinite(v).all() and np.isfinite(g).all()) for v, g in outs]
+                if not any(fin):
+                    continue            # outside the common floating-point domain of the two forms
+                (v1, g1), (v2, g2) = outs
+                ok = all(fin) and np.allclose(v1, v2, rtol=rtol, atol=rtol) and np.allclose(g1, g2, rtol=rtol * 10, atol=rtol * 10)
+                if not ok:
+                    run.violation(c.name + ".float_values_and_gradients_coincide", "%s operands with rows at different scales (each row well-conditioned): fused form %s, composition %s; "
+                                  "values %s vs %s" % (np.dtype(dt).name, "finite" if fin[0] else "NOT finite", "finite" if fin[1] else "NOT finite", v1.ravel()[:4].tolist(), v2.ravel()[:4].tolist()),
+                                  key=key, replay={"x": x.tolist(), "upstream": gv.tolist(), "lhs_value": v1.tolist(), "rhs_value": v2.tolist(), "lhs_grad": g1.tolist(), "rhs_grad": g2.tolist(), **key},
+                                  reproduced=True)
+
+
 def identities(tier):
     import synapgrad.functional as F
     import synapgrad.nn.functional as NF
@@ -175,7 +225,7 @@ def identities(tier):
         for lab in labs:
             cs.append(PairCase("cross_entropy=nll(log_softmax)", {"shape": (N, C), "labels": lab}, [L("x", (N, C))],
                                lambda T, lab=lab: NF.cross_entropy(T["x"], _labels(lab)), lambda T, lab=lab: NF.nll_loss(NF.log_softmax(T["x"], 1), _labels(lab)),
-                               eps="zero", functions=(NFN + "cross_entropy", NFN + "nll_loss", NFN + "log_softmax")))
+                               eps="zero", functions=(NFN + "cross_entropy", NFN + "nll_loss", NFN + "log_softmax"), stress_axis=1))
             for red in ("mean", "sum"):
                 cs.append(PairCase("CrossEntropyLoss=NLLLoss(LogSoftmax)", {"shape": (N, C), "labels": lab, "reduction": red}, [L("x", (N, C))],
                                    lambda T, lab=lab, red=red: nn.CrossEntropyLoss(reduction=red)(T["x"], _labels(lab)),
@@ -187,7 +237,7 @@ def identities(tier):
     for shape, dim in [((3,), 0), ((2, 3), 1), ((2, 3), 0), ((2, 2, 2), -1)]:
         cs.append(PairCase("log_softmax=log(softmax)", {"shape": shape, "dim": dim}, [L("x", shape)],
                            lambda T, dim=dim: NF.log_softmax(T["x"], dim), lambda T, dim=dim: F.log(NF.softmax(T["x"], dim)), eps="zero",
-                           functions=(NFN + "log_softmax", NFN + "softmax", FN + "log")))
+                           functions=(NFN + "log_softmax", NFN + "softmax", FN + "log"), stress_axis=dim))
     # ---- rational identities
     for (N, I, O) in [(2, 3, 2), (1, 2, 1)]:
         cs.append(PairCase("linear=x@W.T+b", {"N": N, "in": I, "out": O, "bias": True}, [L("x", (N, I)), L("w", (O, I)), L("b", (O,))],
@@ -320,4 +370,7 @@ def main(tier="quick", seed=0, procs=None, only=None):
     if only:
         cases = [c for c in cases if only in c.name]
     run_catalogue(run, cases, seed=seed, procs=procs)
+    run.assume("floating point: besides the proof over the reals, the softmax-type identities are evaluated natively in float32/float64 on rows at very different scales "
+               "(bounded run-time part, counted as bounded evaluations, not as discharged obligations)")
+    float_stress(run, cases, seed)
     return run.finish()
